@@ -25,14 +25,16 @@ import vlib
 
 PROPS = ["C15", "C16", "C17"]
 _TECH = "TLA+ model checking (TLC) + TLC-generated behaviours replayed on the real class + TLC trace validation"
-_NOTE = ("bounded: 3-4 data PDUs per direction in the exhaustive model (no bound on connection events), behaviours to "
+_NOTE = ("bounded: 2-3 PDUs per direction in the exhaustive model (no bound on connection events), behaviours to "
          "depth 5/6 exhaustively + state/transition covers of the bounded model + random deep ones; Tx/Rx in {31,61,100}, "
          "default PDU layout; radio ISR dispatch transcribed from nrf52.hpp (assumption isr-dispatch), the ISR itself and "
-         "nrf52.cpp counter::increment are not executed; central sends only valid LLIDs; sequential (no ISR/main "
+         "nrf52.cpp counter::increment are not executed; the central also sends the reserved LLID 0 (with and without "
+         "payload; the spec leaves open whether such a PDU is refused, kept or dropped, but demands that it is counted "
+         "when it is acknowledged); sequential (no ISR/main "
          "interleaving inside a call); trusted: TLC, harness/lldata, g++/ASan.")
 META = {
     "C15": {"text": "TLC explores the complete state graph of the SN/NESN model (central + lossy channel + peripheral buffer, "
-                    "3-4 PDUs per direction, receive capacity 1-2, any number of connection events) with the delivery "
+                    "2-3 PDUs per direction, each with a valid or the reserved LLID, receive capacity 1-2, any number of connection events) with the delivery "
                     "invariants; TLC-generated loss/CRC/no-buffer/retransmission patterns are replayed on the real "
                     "ll_data_pdu_buffer through its protected radio interface and every recorded connection event, "
                     "commit and read is validated by TLC against the model (answer header, retransmission content, "
@@ -133,6 +135,7 @@ def script_of(beh, i, var):
         elif op[0] == "read":
             lines.append("read")
         elif op[0] == "x":
+            # op[2]: 0 empty, 1 data (LLID 1..3 by rotation), 2 no payload + reserved LLID 0, 3 payload + reserved LLID 0
             lines.append("x %s %d %d %d" % (op[1], op[2], crange[k % len(crange)], (2, 1, 3)[(k // 2) % 3]))
         elif op[0] == "r":
             lines.append("r %s" % op[1])
@@ -192,6 +195,9 @@ class Runner:
         k = e
         if e == "x":
             k = "x:" + ev["out"]
+            if ev["cllid"] == 0:                # reserved LLID: counted separately (vacuity)
+                k2 = "x0:%s:%s" % (ev["out"], "data" if ev["clen"] else "empty")
+                self.counts[k2] = self.counts.get(k2, 0) + 1
         elif e == "crx":
             k = "crx:" + ev["pout"]
         elif e == "commit":
@@ -311,8 +317,13 @@ def run(c):
         "isr-dispatch: the radio calls the buffer as nrf52.hpp radio_interrupt_handler does: timeout -> no call and no "
         "answer; no receive buffer or CRC error -> next_transmit(); CRC ok + MIC ok -> received(); CRC ok + MIC failed "
         "(non-empty PDUs only) -> acknowledge(); one allocate_receive_buffer() per connection event",
-        "the central follows Core 4.5.9 (SN/NESN), sends only LLID 1..3 and respects max_rx_size; it is played by the "
-        "harness and its headers are validated against the model (CentralSends / CentralRx)",
+        "the central follows Core 4.5.9 (SN/NESN), sends LLID 0..3 (0 = reserved, with and without payload, numbered "
+        "and encrypted like any PDU with payload) and respects max_rx_size; it is played by the harness and its "
+        "headers are validated against the model (CentralSends / CentralRx)",
+        "reserved LLID 0: the spec leaves open whether the PDU is refused (not acknowledged), handed to the upper "
+        "layer or dropped, and whether the acknowledgement in its header is used; it demands that an acknowledged one "
+        "with payload advances the receive packet counter exactly once and that it is never acknowledged after a CRC/MIC "
+        "failure or without buffer",
         "upper layer commits non-empty PDUs of at most max_tx_size; calls are sequential (no preemption inside a call)",
         "fault alphabet of this property (C16 additionally replays the plain alphabet): %s" % {"plain": "lost, CRC error, no buffer in both directions (no MIC failures)",
                                                  "enc": "plain + encrypted link: the harness lets the MIC of a data PDU fail iff the buffer's "
@@ -333,7 +344,7 @@ def run(c):
     with ThreadPoolExecutor(4) as ex:
         # 1. design level: complete state graph of the bounded instance
         f_mc = [ex.submit(vlib.model_check, c, "LLData", "LLData.tla", cfg, workers=4)
-                for cfg in (["MC.cfg"] if c.quick else ["MC.cfg", "MC4.cfg"])]
+                for cfg in (["MC.cfg"] if c.quick else ["MC.cfg", "MC3.cfg"])]
         # implementation-shaped model (decision structure of the real member functions) under this property's
         # fault alphabet; for C17 also with the repaired acknowledge(pdu)
         f_impl = ex.submit(vlib.model_check, c, "LLData", "LLDataImpl.tla",
@@ -415,7 +426,8 @@ def run(c):
                        "transition covers, -simulate); PDU lengths, LLIDs, allocation style, fresh object vs "
                        "reset_pdu_buffer() and max_rx/max_tx settings are a plain rotation enumerated by the python check" % d_all)
     need = ["x:lost", "x:crc", "x:nobuf", "x:ok", "crx:lost", "crx:ok", "crx:nak", "commit:ok", "commit:refused",
-            "read:pdu", "read:none"] + (["x:mic"] if mode != "plain" else [])
+            "read:pdu", "read:none", "x0:ok:data", "x0:ok:empty", "x0:crc:data", "x0:nobuf:data", "x0:lost:data"] + \
+           (["x:mic", "x0:mic:data"] if mode != "plain" else [])
     missing = [k for k in need if not rn.counts.get(k)]
     if missing and not c.violations:          # (a violation is a verdict; vacuity only matters for a green run)
         raise vlib.ToolFailure("vacuous: no validated event of class %s" % missing)
